@@ -195,6 +195,14 @@ fn offsets(len: usize, cap: usize, rng: &mut Prng) -> Vec<usize> {
     }
     let mut v: Vec<usize> = (0..96.min(len)).collect();
     v.extend(len.saturating_sub(64)..len);
+    // around the block sizes internal buffers tend to have
+    for blk in [4096usize, 8192] {
+        let mut b = blk;
+        while b < len && b <= 64 * blk {
+            v.extend([b - 1, b, b + 1].into_iter().filter(|&x| x < len));
+            b += blk;
+        }
+    }
     while v.len() < cap {
         v.push(rng.usize_below(len));
     }
@@ -221,7 +229,30 @@ fn fault_kind(script: &Script, side: Side) -> &'static str {
     }
 }
 
-fn violation(scn: &Scn, m: &Mat, side: Side, script: &Script, class: &str, detail: &str) -> Violation {
+fn prelude_json(prelude: &[(Side, Script)]) -> Value {
+    Value::Array(prelude.iter().map(|(sd, sc)| json!({"side": sd.name(), "script": sc.to_json()})).collect())
+}
+
+fn prelude_from(v: &Value) -> Vec<(Side, Script)> {
+    v.as_array()
+        .map(|a| {
+            a.iter()
+                .filter_map(|e| {
+                    let side = match e["side"].as_str()? {
+                        "ser" => Side::Ser,
+                        "de" => Side::De,
+                        _ => return None,
+                    };
+                    Some((side, Script::from_json(&e["script"])?))
+                })
+                .collect()
+        })
+        .unwrap_or_default()
+}
+
+/// `prelude`: the cases executed on the same thread immediately before (a failed transfer may
+/// leave state behind that only the next one shows); a replay executes them first.
+fn violation(scn: &Scn, m: &Mat, side: Side, script: &Script, class: &str, detail: &str, prelude: &[(Side, Script)]) -> Violation {
     Violation {
         key: format!("{}/{}/{}", side.name(), class, m.tag.name().replace(['<', '>'], "_")),
         class: class.to_string(),
@@ -239,6 +270,7 @@ fn violation(scn: &Scn, m: &Mat, side: Side, script: &Script, class: &str, detai
             "scenario": scn.to_json(),
             "side": side.name(),
             "script": script.to_json(),
+            "prelude": prelude_json(prelude),
             "encoding_len": m.enc.len(),
             "encoding_hash": util::h64(&m.enc),
             "encoding_hex": if m.enc.len() <= 2048 { Value::String(util::hex(&m.enc)) } else { Value::Null },
@@ -341,8 +373,20 @@ fn one_run(i: usize, run_seed: u64, b: &Budget) -> RunOut {
     let root = Prng::new(run_seed);
     let mut prng = root.fork("scenario");
     // swarm: each run picks its own world and object kind; kinds are cycled so that every type is hit
-    let opts = SpecOpts::serialization();
-    let kind = objs::KINDS[(i + prng.usize_below(3)) % objs::KINDS.len()].to_string();
+    let mut opts = SpecOpts::serialization();
+    // now and then a realistic ring size (components of 8-32 KiB): bulk paths with internal
+    // buffers only show there; the fault offsets are then sampled around block boundaries
+    let big = i % 48 == 29;
+    const BIG_KINDS: &[&str] = &["ct", "ctfull", "ctterms", "pk", "poly", "plain", "cipher1d", "sk", "plain1d", "cipher1dterms"];
+    if big {
+        opts.ns = vec![1024, 2048, 4096];
+        opts.min_primes = 1;
+        opts.max_primes = 2;
+        opts.qbits = vec![17, 30, 36, 41, 50, 60];
+        opts.tbits = vec![17, 20];
+        opts.batching = true;
+    }
+    let kind = if big { BIG_KINDS[(i / 48 + prng.usize_below(3)) % BIG_KINDS.len()].to_string() } else { objs::KINDS[(i + prng.usize_below(3)) % objs::KINDS.len()].to_string() };
     let mut mat = None;
     let mut scn_used = None;
     for attempt in 0..12 {
@@ -372,6 +416,7 @@ fn one_run(i: usize, run_seed: u64, b: &Budget) -> RunOut {
     let mut evals = 0u64;
     let mut frng = root.fork("io");
 
+    let mut recent: Vec<(Side, Script)> = Vec::new();
     let mut judge = |side: Side, script: Script, out: &mut RunOut, log: &mut LogHash| {
         let o = exec_case(&m, side, &script);
         evals += 1;
@@ -400,12 +445,21 @@ fn one_run(i: usize, run_seed: u64, b: &Budget) -> RunOut {
             out.count("probe.fault_inside_multibyte_field", 1);
         }
         if let Some((class, detail)) = o.bad {
-            out.violations.push(violation(&scn, &m, side, &script, &class, &detail));
+            out.violations.push(violation(&scn, &m, side, &script, &class, &detail, &recent));
         }
+        if recent.len() == 2 {
+            recent.remove(0);
+        }
+        recent.push((side, script));
     };
 
+    if big {
+        out.count("probe.large_ring_object", 1);
+    }
+    let cap = if big { 260 } else { b.offset_cap };
+    let nscripts = if big { 6 } else { b.scripts };
     // reader side: every EOF offset and every hard-error offset
-    for k in offsets(m.consumed, b.offset_cap, &mut frng) {
+    for k in offsets(m.consumed, cap, &mut frng) {
         let mut s = if frng.coin() { Script::clean() } else { Script::draw(&mut frng, false) };
         s.eof_at = Some(k);
         judge(Side::De, s, &mut out, &mut log);
@@ -414,13 +468,18 @@ fn one_run(i: usize, run_seed: u64, b: &Budget) -> RunOut {
         judge(Side::De, s, &mut out, &mut log);
     }
     // writer side: every hard-failure offset
-    for k in offsets(m.enc.len(), b.offset_cap, &mut frng) {
+    for (j, k) in offsets(m.enc.len(), cap, &mut frng).into_iter().enumerate() {
         let mut s = if frng.coin() { Script::clean() } else { Script::draw(&mut frng, true) };
         s.fail_at = Some(k);
         judge(Side::Ser, s, &mut out, &mut log);
+        // a healthy transfer right after a failed one, on the same thread: nothing of the failed
+        // attempt may leak into it
+        if big || j % 16 == 0 {
+            judge(Side::Ser, Script::clean(), &mut out, &mut log);
+        }
     }
     // fault-free fragmentation both ways
-    for _ in 0..b.scripts {
+    for _ in 0..nscripts {
         judge(Side::Ser, Script::draw(&mut frng, true), &mut out, &mut log);
         judge(Side::De, Script::draw(&mut frng, false), &mut out, &mut log);
     }
@@ -488,7 +547,23 @@ fn minimise(v: &Violation) -> Violation {
     }
     let Some((scn, side, script, _)) = parse_replay(&v.replay) else { return v.clone() };
     let Ok(m) = materialise(&scn) else { return v.clone() };
+    // does the case fail on its own, or only after what ran before it on the same thread?
+    let mut prelude = prelude_from(&v.replay["prelude"]);
+    let alone = matches!(exec_case(&m, side, &script).bad, Some((ref c, _)) if *c == v.class);
+    if alone {
+        prelude.clear();
+    } else if prelude.len() == 2 {
+        // is the last case before it enough?
+        let _ = exec_case(&m, prelude[1].0, &prelude[1].1);
+        if matches!(exec_case(&m, side, &script).bad, Some((ref c, _)) if *c == v.class) {
+            prelude.remove(0);
+        }
+    }
+    let prelude = prelude;
     let same = |s: &Script| -> Option<String> {
+        for (ps, pc) in prelude.iter() {
+            let _ = exec_case(&m, *ps, pc);
+        }
         let o = exec_case(&m, side, s);
         match o.bad {
             Some((c, d)) if c == v.class => Some(d),
@@ -537,7 +612,7 @@ fn minimise(v: &Violation) -> Violation {
             }
         }
     }
-    violation(&scn, &m, side, &best, &v.class, &best_detail)
+    violation(&scn, &m, side, &best, &v.class, &best_detail, &prelude)
 }
 
 pub fn replay(doc: &Value) -> i32 {
@@ -585,6 +660,9 @@ pub fn replay(doc: &Value) -> i32 {
     if util::h64(&m.enc) != want_hash {
         eprintln!("replay diverged: regenerated object encodes differently from the recorded one");
         return 2;
+    }
+    for (ps, pc) in prelude_from(&doc["replay"]["prelude"]) {
+        let _ = exec_case(&m, ps, &pc);
     }
     let o = exec_case(&m, side, &script);
     match o.bad {
